@@ -37,6 +37,9 @@ fn base(n_ep: usize, key: &str, salt: u64) -> Plan {
 	sched.proc_ms = (1, 3);
 	sched.chunk = (16, 96);
 	sched.map_salt = salt;
+	// a history that can never converge is retried in the daemon's tight loop: a normal history needs a
+	// few thousand events, so the run is bounded well below the default cap
+	sched.max_events = 40_000;
 	Plan {
 		world: {
 			let mut w = world_cfg(&mut rng);
